@@ -512,42 +512,41 @@ def r_deprecated_eq(ctx):
 
 
 def r_full_eq(ctx):
-    rep = RuleReport("R-FULL-EQ", "in write_explicit_sized the Full arm is: start_tag(id, W) exactly as the Start arm, write(child) for every child in "
-                     "order, end_tag(id) exactly as the End arm")
+    rep = RuleReport("R-FULL-EQ", "abstract interpretation of write_advanced for a master presented as Full, as Start and as End: the Full form performs "
+                     "exactly the writer actions of the Start form (before any child), then the recursive child writes, then exactly the "
+                     "actions of the End form — same callees with the same width parameters, same bytes pushed")
     prog = ctx.prog
-    b = find_one(prog, "TagWriter::write_explicit_sized")
-    starts = b.calls_to(WRITER + "::start_tag")
-    ends = b.calls_to(WRITER + "::end_tag")
-    writes = b.calls_to(WRITER + "::write")
-    rep.instance("start_tag sites %d, end_tag sites %d, write sites %d" % (len(starts), len(ends), len(writes)))
-    ok = rep.oblige(len(starts) == 2 and len(ends) == 2 and len(writes) == 1, "FULL-EQ|shape", b.span,
-                    "expected 2 start_tag, 2 end_tag and 1 recursive write call in write_explicit_sized, found %d/%d/%d" % (len(starts), len(ends), len(writes)))
-    if not ok:
-        return rep
 
-    def args_sig(t):
-        return tuple(mirlib.operand_str(a, b) if a.get("k") == "const" else ("local:%s" % _root_name(b, a)) for a in t["args"][1:])
-    s_sigs = {args_sig(t) for _, t, _ in starts}
-    e_sigs = {args_sig(t) for _, t, _ in ends}
-    rep.oblige(len(s_sigs) == 1, "FULL-EQ|start-args", b.span, "the two start_tag calls differ in their arguments: %s" % sorted(s_sigs))
-    rep.oblige(len(e_sigs) == 1, "FULL-EQ|end-args", b.span, "the two end_tag calls differ in their arguments: %s" % sorted(e_sigs))
-    # ordering in the Full arm: the start that dominates the write call, which is inside a loop, and an end_tag reachable only after the loop
-    wbb = writes[0][0]
-    dom = b.dominators()
-    full_start = [bb for bb, _, _ in starts if bb in dom.get(wbb, ())]
-    rep.oblige(len(full_start) == 1, "FULL-EQ|start-dominates-children", b.span, "no start_tag call dominates the children loop")
-    in_loop = wbb in b.reachable_from(b.blocks[wbb]["term"]["target"]) if b.blocks[wbb]["term"]["target"] is not None else False
-    rep.oblige(in_loop, "FULL-EQ|children-loop", b.span, "the recursive write is not inside a loop over the children")
-    src = set()
-    a1 = writes[0][1]["args"][1]
-    if a1.get("k") in ("copy", "move"):
-        from rules.writer import local_sources
-        src = local_sources(b, a1["place"]["local"])
-    rep.oblige("call:std::iter::Iterator::next" in src, "FULL-EQ|children-iter", b.span, "the written child does not come from iterating the Full payload (%s)" % sorted(src))
-    rep.oblige(not any(x.split("::")[-1] in ("rev", "skip", "take", "filter", "step_by") for x in src if x.startswith("call:std::iter::Iterator::")),
-               "FULL-EQ|children-order", b.span, "children are not written in order / completely (%s)" % sorted(src))
-    full_end = [bb for bb, _, _ in ends if full_start and full_start[0] in dom.get(bb, ())]
-    rep.oblige(len(full_end) == 1, "FULL-EQ|end-after-children", b.span, "no end_tag call follows the children loop in the Full arm")
+    def actions(run):
+        # width parameters are R-WIDTH-TABLE's business (the Full form's own push is summarised before its pop); the rollback of a failed
+        # Full write (truncate) is R-ATOMIC's
+        calls = ["size_as_vint*" if d.startswith("size_as_vint") else d for (k, d, g) in run.events if k == "call" and d not in ("private_flush",)]
+        muts = [d for (k, d, g) in run.events if k == "mutate" and "truncate" not in str(d)]
+        return calls, muts
+    for k in (None, 1, 4):
+        rS = WriterRun(prog, "TagWriter::write_advanced", tag_type="Master", form="Start", size_len=k, validate_result=True).run()
+        rE = WriterRun(prog, "TagWriter::write_advanced", tag_type="Master", form="End", size_len=k, validate_result=True, stack_elem=("Known", k)).run()
+        rF = WriterRun(prog, "TagWriter::write_advanced", tag_type="Master", form="Full", size_len=k, validate_result=True).run()
+        cS, mS = actions(rS)
+        cE, mE = actions(rE)
+        cF, mF = actions(rF)
+        evF = [(kd, d) for (kd, d, g) in rF.events]
+        rec = [i for i, (kd, d) in enumerate(evF) if kd == "recursive-write"]
+        rep.instance("width=%s: Full calls %s" % (k, sorted(set(cF))))
+        rep.oblige(bool(rec), "FULL-EQ|children|w=%s" % k, "src/tag_writer.rs", "the Full form never writes its children (no recursive write reached)")
+        want = set(cS) | set(cE)
+        rep.oblige(set(cF) == want, "FULL-EQ|same-actions|w=%s" % k, "src/tag_writer.rs",
+                   "the Full form calls %s; Start and End forms together call %s" % (sorted(set(cF)), sorted(want)))
+        rep.oblige(set(map(str, mF)) == set(map(str, mS)) | set(map(str, mE)), "FULL-EQ|same-mutations|w=%s" % k, "src/tag_writer.rs",
+                   "the Full form mutates the writer state with %s; Start and End forms together with %s" % (sorted(set(map(str, mF))), sorted(set(map(str, mS)) | set(map(str, mE)))))
+        if rec:
+            first_child = rec[0]
+            idx = {d: [i for i, (kd, d2) in enumerate(evF) if kd == "call" and d2 == d] for d in set(cF)}
+            st_i = idx.get("start_tag", [])
+            en_i = idx.get("end_tag", [])
+            rep.oblige(bool(st_i) and min(st_i) < first_child, "FULL-EQ|start-before-children|w=%s" % k, "src/tag_writer.rs", "the master is not opened before its children are written")
+            rep.oblige(bool(en_i) and max(en_i) > first_child, "FULL-EQ|end-after-children|w=%s" % k, "src/tag_writer.rs", "the master is not closed after its children are written")
+    rep.require_floor(3, "width classes")
     return rep
 
 
